@@ -1,7 +1,7 @@
 (* Proofs about the model of mir-htab.h (Htab.v): refinement to an insertion-ordered association
    list, free function called exactly once per dropped element, termination of the probe loop
    (via Lcg.lcg5_full_period). *)
-From Coq Require Import List ZArith NArith Bool Arith Lia.
+From Coq Require Import List ZArith NArith Bool Arith Lia Permutation.
 Import ListNotations.
 From MirV Require Import C19.Varr C19.VarrProofs C19.BitmapProofs C19.Htab C19.Lcg.
 
@@ -1021,4 +1021,203 @@ Proof.
       pose proof (inv_bound h Hi). lia. }
     exists h', found, res'. auto.
 Qed.
+
+(* ------------------------------------------------------------------ clear / foreach / create *)
+Lemma live_cells_abs cells : (forall c, In c cells -> c <> None) -> live_cells A cells = Some (abs_cells cells).
+Proof.
+  induction cells as [|c cells IH]; intros Hdef; [reflexivity|].
+  destruct c as [[hh y]|]; [|exfalso; apply (Hdef None); [left; reflexivity|reflexivity]].
+  simpl. rewrite IH by (intros c Hc; apply Hdef; right; exact Hc).
+  destruct (N.eqb hh 0); reflexivity.
+Qed.
+
+Lemma hforeach_spec h : Inv h -> hforeach A h = Some (absl h).
+Proof.
+  intros Hi. unfold hforeach, absl. apply live_cells_abs. intros c Hc Hnone. subst c.
+  apply In_nth_error in Hc. destruct Hc as [i Hc].
+  destruct (Nat.lt_ge_cases i (els_bound h)) as [Hlt|Hge].
+  - rewrite nth_error_firstn_lt in Hc by auto. destruct (inv_def h Hi i Hlt) as [c' Hc']. congruence.
+  - rewrite nth_error_firstn_ge in Hc by auto. discriminate.
+Qed.
+
+Lemma hclear_spec h : Inv h ->
+  exists h', hclear A h = Some h' /\ Inv h' /\ absl h' = [] /\ flog h' = flog h ++ absl h.
+Proof.
+  intros Hi. unfold hclear. rewrite (hforeach_spec h Hi). eexists. split; [reflexivity|].
+  destruct (inv_pow h Hi) as [k Hk]. split; [|split; reflexivity].
+  apply (Inv_fresh k); [exact Hk|exact (inv_len h Hi)].
+Qed.
+
+Lemma create_size_pow min fuel : forall s j, N.of_nat s = (2 ^ j)%N ->
+  exists j', N.of_nat (create_size fuel s min) = (2 ^ j')%N.
+Proof.
+  induction fuel as [|f IH]; intros s j Hs; simpl.
+  - destruct (Nat.leb min s); exists j; exact Hs.
+  - destruct (Nat.leb min s); [exists j; exact Hs|].
+    apply (IH (2 * s) (j + 1)%N). rewrite N.pow_add_r. change (2 ^ 1)%N with 2%N. lia.
+Qed.
+
+Lemma hcreate_spec min : Inv (hcreate A min) /\ absl (hcreate A min) = [] /\ flog (hcreate A min) = [].
+Proof.
+  unfold hcreate. destruct (create_size_pow min min 2 1%N eq_refl) as [j Hj].
+  split; [|split; reflexivity].
+  apply (Inv_fresh (j + 1)).
+  - rewrite N.pow_add_r. change (2 ^ 1)%N with 2%N. lia.
+  - rewrite repeat_length. reflexivity.
+Qed.
+
+(* ------------------------------------------------------------------ scripts *)
+Notation hstep := (hstep A hashf eqf).
+Notation astep := (astep A eqf).
+
+Theorem hstep_refines h o : Inv h -> o <> HCollisions ->
+  exists h' out dropped, hstep h o = Some (h', out) /\ Inv h' /\
+    astep (absl h) o = (absl h', out, dropped) /\ flog h' = flog h ++ dropped.
+Proof.
+  intros Hi Hnc. destruct o as [act x| | | |]; cbn [Htab.hstep Htab.astep]; [| | | |congruence].
+  - unfold hdo_top. destruct (hdo_spec h x act None Hi) as [h' [found [res' [Hrun [Hi' Hpost]]]]].
+    rewrite Hrun. unfold do_post in Hpost.
+    destruct (afind (absl h) x) as [y|], act; destruct Hpost as [P1 [P2 [P3 P4]]]; subst found res';
+      rewrite <- P1; eexists h', _, _; (split; [reflexivity|]); (split; [exact Hi'|]);
+        (split; [reflexivity|]); rewrite P4, ?app_nil_r; reflexivity.
+  - destruct (hclear_spec h Hi) as [h' [Hc [Hi' [Ha Hf]]]]. rewrite Hc.
+    exists h', HoNone, (absl h). rewrite Ha. auto.
+  - exists h, (HoNat (h_els_num h)), []. rewrite (inv_num h Hi), app_nil_r. auto.
+  - rewrite (hforeach_spec h Hi). exists h, (HoList (absl h)), []. rewrite app_nil_r. auto.
+Qed.
+
+Fixpoint hrun (h : htab) (ops : list (hop A)) : option (htab * list (hout A)) :=
+  match ops with
+  | [] => Some (h, [])
+  | o :: r => match hstep h o with
+              | None => None
+              | Some (h', out) => match hrun h' r with
+                                  | None => None
+                                  | Some (h'', outs) => Some (h'', out :: outs)
+                                  end
+              end
+  end.
+
+(* the abstract run: final map, outputs, all dropped elements in order *)
+Fixpoint arun (m : list A) (ops : list (hop A)) : list A * list (hout A) * list A :=
+  match ops with
+  | [] => (m, [], [])
+  | o :: r => let '(m', out, d) := astep m o in
+              let '(m'', outs, ds) := arun m' r in (m'', out :: outs, d ++ ds)
+  end.
+
+Theorem hrun_refines : forall ops h, Inv h -> Forall (fun o => o <> HCollisions) ops ->
+  exists h' outs ds, hrun h ops = Some (h', outs) /\ Inv h' /\
+    arun (absl h) ops = (absl h', outs, ds) /\ flog h' = flog h ++ ds /\ h_els_num h' = length (absl h').
+Proof.
+  induction ops as [|o r IH]; intros h Hi Hall.
+  - exists h, [], []. simpl. rewrite app_nil_r.
+    split; [reflexivity|]. split; [exact Hi|]. split; [reflexivity|]. split; [reflexivity|]. apply (inv_num h Hi).
+  - inversion Hall as [|? ? Ho Hr]; subst.
+    destruct (hstep_refines h o Hi Ho) as [h1 [out [d [Hs [Hi1 [Ha Hf]]]]]].
+    destruct (IH h1 Hi1 Hr) as [h2 [outs [ds [Hrun [Hi2 [Har [Hfl Hnum]]]]]]].
+    exists h2, (out :: outs), (d ++ ds). cbn [hrun arun]. rewrite Hs, Hrun, Ha, Har.
+    split; [reflexivity|]. split; [exact Hi2|]. split; [reflexivity|]. split; [|exact Hnum].
+    rewrite Hfl, Hf, app_assoc. reflexivity.
+Qed.
+
+(* ------------------------------------------------------------------ free function: once per dropped element.
+   [stored m o]: the elements the op puts into the table.  Conservation: everything ever stored is
+   (as a multiset) either still in the table or in the list of dropped elements -- so nothing is
+   dropped twice and nothing leaves the table without being dropped. *)
+Definition stored (m : list A) (o : hop A) : list A :=
+  match o with
+  | HDo act x => match afind m x, act with
+                 | None, Insert | None, Replace | Some _, Replace => [x]
+                 | _, _ => []
+                 end
+  | _ => []
+  end.
+
+Lemma areplace_perm m x y : afind m x = Some y -> Permutation (m ++ [x]) (areplace m x ++ [y]).
+Proof.
+  induction m as [|z m IH]; simpl; intros Hf; [discriminate|].
+  destruct (eqf z x).
+  - inversion Hf; subst. simpl. rewrite <- !Permutation_middle. apply perm_swap.
+  - simpl. apply perm_skip. apply IH. exact Hf.
+Qed.
+
+Lemma aremove_perm m x y : afind m x = Some y -> Permutation m (aremove m x ++ [y]).
+Proof.
+  induction m as [|z m IH]; simpl; intros Hf; [discriminate|].
+  destruct (eqf z x).
+  - inversion Hf; subst. apply Permutation_cons_append.
+  - simpl. apply perm_skip. apply IH. exact Hf.
+Qed.
+
+Lemma astep_conserve m o :
+  Permutation (m ++ stored m o) (fst (fst (astep m o)) ++ snd (astep m o)).
+Proof.
+  destruct o as [act x| | | |]; cbn [Htab.astep stored fst snd]; rewrite ?app_nil_r; auto.
+  - destruct (afind m x) as [y|] eqn:Hf; destruct act; cbn [fst snd]; rewrite ?app_nil_r; auto.
+    + apply areplace_perm. exact Hf.
+    + apply aremove_perm. exact Hf.
+Qed.
+
+Fixpoint astored (m : list A) (ops : list (hop A)) : list A :=
+  match ops with
+  | [] => []
+  | o :: r => stored m o ++ astored (fst (fst (astep m o))) r
+  end.
+
+Theorem arun_conserve : forall ops m,
+  Permutation (m ++ astored m ops) (fst (fst (arun m ops)) ++ snd (arun m ops)).
+Proof.
+  induction ops as [|o r IH]; intros m; cbn [arun astored].
+  - simpl. reflexivity.
+  - pose proof (astep_conserve m o) as Hs. destruct (astep m o) as [[m1 out] d] eqn:E1.
+    cbn [fst snd] in *. specialize (IH m1). destruct (arun m1 r) as [[m2 outs] ds] eqn:E2.
+    cbn [fst snd] in *.
+    rewrite app_assoc. rewrite Hs.
+    rewrite <- app_assoc. rewrite (Permutation_app_comm d). rewrite app_assoc. rewrite IH.
+    rewrite <- !app_assoc. apply Permutation_app_head. apply Permutation_app_comm.
+Qed.
+
+(* from creation: the free log is exactly the abstract run's dropped list, and
+   stored = live + freed as multisets *)
+Theorem htab_free_once_core : forall ops min, Forall (fun o => o <> HCollisions) ops ->
+  exists h' outs, hrun (hcreate A min) ops = Some (h', outs) /\
+    flog h' = snd (arun [] ops) /\ absl h' = fst (fst (arun [] ops)) /\
+    Permutation (astored [] ops) (absl h' ++ flog h').
+Proof.
+  intros ops min Hall. destruct (hcreate_spec min) as [Hi [Ha Hf]].
+  destruct (hrun_refines ops (hcreate A min) Hi Hall) as [h' [outs [ds [Hrun [Hi' [Har [Hfl _]]]]]]].
+  exists h', outs. split; [exact Hrun|]. rewrite Ha in Har. rewrite Hf in Hfl. simpl in Hfl.
+  pose proof (arun_conserve ops []) as Hc. rewrite Har in *. cbn [fst snd] in *.
+  split; [exact Hfl|]. split; [reflexivity|]. rewrite Hfl. exact Hc.
+Qed.
 End HtabProofs.
+
+(* ------------------------------------------------------------------ the instance run by the correspondence check *)
+Lemma inst_eq_refl x : inst_eq x x = true.
+Proof. unfold inst_eq. apply N.eqb_refl. Qed.
+Lemma inst_eq_sym x y : inst_eq x y = inst_eq y x.
+Proof. unfold inst_eq. apply N.eqb_sym. Qed.
+Lemma inst_eq_trans x y z : inst_eq x y = true -> inst_eq y z = true -> inst_eq x z = true.
+Proof. unfold inst_eq. rewrite !N.eqb_eq. congruence. Qed.
+Lemma inst_eq_hash table x y : inst_eq x y = true -> inst_hash table x = inst_hash table y.
+Proof. unfold inst_eq, inst_hash. rewrite N.eqb_eq. intros ->. reflexivity. Qed.
+Lemma inst_hash_range table x : Forall (fun v => (v < 2 ^ 32)%N) table -> (inst_hash table x < 2 ^ 32)%N.
+Proof.
+  intros Hall. unfold inst_hash. destruct (nth_in_or_default (N.to_nat (key_of x)) table 0%N) as [Hin | ->].
+  - rewrite Forall_forall in Hall. apply Hall. exact Hin.
+  - reflexivity.
+Qed.
+
+(* non-vacuity: a reachable table that has grown twice and contains tombstones *)
+Example htab_nonvacuous :
+  let table := [0; 4; 8; 1; 5; 9]%N in
+  let ops := [HDo Insert 1; HDo Insert 1001; HDo Insert 2003; HDo Delete 1000; HDo Insert 3003;
+              HDo Insert 4004; HDo Insert 5005; HDo Delete 2000; HDo Replace 3007]%N in
+  exists h' outs, hrun N (inst_hash table) inst_eq (inst_create 1) ops = Some (h', outs) /\
+    length (entries h') = 16 /\ In Deleted (entries h') /\ absl N h' = [1; 3007; 4004; 5005]%N /\
+    flog h' = [1001; 2003; 3003]%N.
+Proof.
+  cbv zeta. vm_compute. eexists. eexists. split; [reflexivity|].
+  split; [reflexivity|]. split; [simpl; tauto|]. split; reflexivity.
+Qed.
